@@ -70,26 +70,14 @@ def encodings_of_case(c, m, rng, tier):
     return res
 
 
-def classify(run, m, c, e, line, o, sw, known_short=None):
-    """one sweep result -> violations / known findings.  Returns True when the encoding is well-behaved one-shot.
-    known_short = (finding id, rc, k): by an open finding the one-shot decode is known to answer (rc, k) with k < n (the model
-    of the C says so and the standard reading of the model differs; the model's FAIL stands for RC_FAIL and for RC_WMORE at
-    the end of the input); when the C does just that, the one-shot oracle is not applied, and with rc = OK a prefix of
-    p >= k octets answering OK k is the same finding.  The split oracle stays."""
+def classify(run, m, c, e, line, o, sw):
+    """one sweep result -> violations / known findings.  Returns True when the encoding is well-behaved one-shot."""
     syn, n = e["syn"], sw["n"]
     replay = {"module": m["text"], "type": c["tn"], "model_type": c.get("ts"), "value": c.get("vs"), "syntax": syn, "variant": e["label"],
               "command_line": line[:4000], "c": o[:1500]}
     xer_nl = (syn == "xer" and e["label"].split(":")[0] == "xer" and e["hex"].endswith("0a") and sw["rc"] == "OK" and sw["consumed"] == n - 1)
     full = sw["rc"] == "OK" and (sw["consumed"] == n or xer_nl) and sw["der"] == c["der"]
-    excused = False
-    if known_short is not None and not full and ((known_short[1] == "OK" and sw["rc"] == "OK" and sw["consumed"] == known_short[2] < n)
-                                                 or (known_short[1] == "FAIL" and sw["rc"] in ("FAIL", "MORE"))):
-        run.known_finding(known_short[0], line)
-        excused = True
-        full = sw["rc"] == "OK" and sw["der"] == c["der"]
-    else:
-        known_short = None
-    if not full and not excused:
+    if not full:
         # a valid encoding that the one-shot decoder does not take back: C03/C01 territory; recorded, and the
         # chunked runs must still agree with the one-shot
         run.count("oneshot_not_ok_%s_%s" % (syn, e["label"]))
@@ -106,23 +94,21 @@ def classify(run, m, c, e, line, o, sw, known_short=None):
         if xer_nl and p == n - 1 and rc == "OK" and cons == n - 1:
             run.known_finding("C05-xer-trailing-newline-prefix", line)
             continue
-        if known_short is not None and known_short[2] is not None and p >= known_short[2] and rc == "OK" and cons == known_short[2]:
-            continue
         run.violation("oracle:prefix(%s)" % syn, dict(replay, what="the proper prefix of %d octets gives %s consumed %d (RC_WMORE with consumed <= %d expected)" % (p, rc, cons, p), prefix=p))
     return full
 
 
 def sweep_items(run, m, items, rng, quick, name):
-    """items: [(case, encoding, known_short)] of one module -> sweep + classification + two feeding schedules each"""
+    """items: [(case, encoding)] of one module -> sweep + classification + two feeding schedules each"""
     lines = []
-    for (cc, e, known) in items:
+    for (cc, e) in items:
         n = len(e["hex"]) // 2
         # (thorough: the base corpus sweeps up to 3000 points per encoding; here there are ten times as many encodings)
         maxpts = (400 if n <= 3000 else 80) if quick else (600 if n <= 6000 else 200)
         lines.append("sweep %s %s %s %d %d" % (cc["tn"], e["syn"], e["hex"], maxpts, rng.below(2**31)))
     o = run_mod(run, m, lines, name, timeout=1500)
     res, feeds = [], []
-    for (cc, e, known), line, r in zip(items, lines, o):
+    for (cc, e), line, r in zip(items, lines, o):
         run.case(line)
         sw = parse_sweep(r)
         res.append(sw)
@@ -132,7 +118,7 @@ def sweep_items(run, m, items, rng, quick, name):
             continue
         run.count("enc_%s_%s" % (e["syn"], e["label"]))
         run.count("splits", sw["pts"])
-        classify(run, m, cc, e, line, r, sw, known_short=known)
+        classify(run, m, cc, e, line, r, sw)
         if sw["n"] <= 3000:
             for sc in ["1*", ",".join(map(str, U.schedules(rng, sw["n"], 1)[0]))]:
                 feeds.append((cc, e, sw, sc, "feed %s %s %s %s" % (cc["tn"], e["syn"], e["hex"], sc)))
@@ -147,9 +133,6 @@ def sweep_items(run, m, items, rng, quick, name):
             run.violation("oracle:schedule(%s)" % e["syn"], {"what": "schedule %s: %s; one-shot: %s %d %s" % (sc[:80], r[:200], sw["rc"], sw["consumed"], sw["der"][:80]),
                                                             "module": m["text"], "type": cc["tn"], "syntax": e["syn"], "variant": e["label"], "command_line": line[:4000]})
     return res
-
-
-SKIP_FID = "C05-ext-oer-skip-unknown-prefix"
 
 
 def shifted(entries, start):
@@ -183,7 +166,7 @@ def ext_part(run, model, xmods, rng, tier):
     for c in cases:
         for rd in c["rd"]:
             e2 = rd["x"]["ety"]
-            for k, l in (("xder", "xder %s %s" % (e2, rd["tvs"])), ("oer0", "xoerdec 0 %s %s" % (e2, c["oer"])), ("oer1", "xoerdec 1 %s %s" % (e2, c["oer"]))):
+            for k, l in (("xder", "xder %s %s" % (e2, rd["tvs"])), ("oer1", "xoerdec 1 %s %s" % (e2, c["oer"]))):
                 lines.append(l)
                 slots.append((rd, k))
             if rd["x"]["nadd"] == 0:
@@ -224,12 +207,11 @@ def ext_part(run, model, xmods, rng, tier):
                     if bs in seen or (rd.get("self") and name not in ("der", "indef")):
                         continue
                     seen.add(bs)
-                    items.append((cc, {"syn": "ber", "label": "ber:%s:%s" % (kind, name), "hex": bs.hex(), "v": v}, None))
-                known = None
-                if not rd.get("self") and rd["oer0"] != rd["oer1"]:
-                    f = rd["oer0"].split()
-                    known = (SKIP_FID, f[0], int(f[1]) if f[0] == "OK" else None)
-                items.append((cc, {"syn": "oer", "label": "oer:" + kind, "hex": c["oer"], "v": None}, known))
+                    items.append((cc, {"syn": "ber", "label": "ber:%s:%s" % (kind, name), "hex": bs.hex(), "v": v}))
+                if not rd.get("self") and rd["oer1"] != "OK %d %s" % (len(c["oer"]) // 2, rd["tvs"]) and "t" not in rd["x"]["ety"]:
+                    run.violation("model:Ext.ext_oer_dec", {"what": "the standard reading of the extensibility model does not return the known part of the value: %s" % rd["oer1"][:300],
+                                                            "model_type": rd["x"]["ety"], "value": rd["tvs"][:2000], "oer": c["oer"][:3000]}, no_input=True)
+                items.append((cc, {"syn": "oer", "label": "oer:" + kind, "hex": c["oer"], "v": None}))
                 for lab, doc in zip(("xer", "cxer"), xer):
                     if doc is None:
                         continue
@@ -238,7 +220,7 @@ def ext_part(run, model, xmods, rng, tier):
                         continue
                     k = doc.rfind(b)
                     doc2 = ("<%s>" % rd["tn"]).encode() + doc[len(a):k] + ("</%s>" % rd["tn"]).encode() + doc[k + len(b):]
-                    items.append((cc, {"syn": "xer", "label": "%s:%s" % (lab, kind), "hex": doc2.hex(), "v": None}, None))
+                    items.append((cc, {"syn": "xer", "label": "%s:%s" % (lab, kind), "hex": doc2.hex(), "v": None}))
                 # phase 4 against the extracted loop
                 if rd.get("oer_root") and rd["oer_root"] != "NONE" and len(c["oer"]) <= 800:
                     oer = bytes.fromhex(c["oer"])
@@ -251,26 +233,22 @@ def ext_part(run, model, xmods, rng, tier):
         sweep_items(run, m, items, rng, quick, "C05-ext-sweep")
         if ties:
             co = run_mod(run, m, ["prefixes %s oer %s" % (cc["tn"], h) for (cc, h, st, bits) in ties], "C05-ext-prefixes")
-            ml = []
-            for (cc, h, st, bits) in ties:
-                ml += ["skipspfx 1 %s %s" % (bits or "0", h[2 * st:] or "-"), "skipspfx 0 %s %s" % (bits or "0", h[2 * st:] or "-")]
+            ml = ["skipspfx 1 %s %s" % (bits or "0", h[2 * st:] or "-") for (cc, h, st, bits) in ties]
             rcm, mo, me = run_lines(model, ml, timeout=600)
             if rcm != 0 or len(mo) != len(ml):
                 raise RuntimeError("model driver failed (skipspfx): %s %s" % (rcm, me))
             for i, ((cc, h, st, bits), cr) in enumerate(zip(ties, co)):
-                run.case(ml[2 * i])
+                run.case(ml[i])
                 run.count("model_skipspfx")
                 got = cr.split(",")[st:]
-                m1, m0 = shifted(mo[2 * i].split(","), st), shifted(mo[2 * i + 1].split(","), st)
+                m1 = shifted(mo[i].split(","), st)
                 if got == m1:
                     continue
-                if got == m0:
-                    run.known_finding(SKIP_FID, ml[2 * i])
-                    continue
                 bad = [j for j in range(min(len(got), len(m1))) if got[j] != m1[j]][:1]
-                run.violation("correspondence:ResumeX.skips_step", {"what": "the first call of SEQUENCE_decode_oer on the prefixes that reach into the unknown additions (from octet %d on) and the extracted phase-4 loop disagree, first at prefix %s: C %s, model %s (code before the repair: %s)"
-                                                                    % (st, (st + bad[0]) if bad else "?", ",".join(got)[:300], ",".join(m1)[:300], ",".join(m0)[:300]),
-                                                                    "module": m["text"], "type": cc["tn"], "command_line": ml[2 * i][:3000], "c_command": "prefixes %s oer %s" % (cc["tn"], h[:3000])}, no_input=True)
+                run.violation("correspondence:ResumeX.skips_step", {"what": "the first call of SEQUENCE_decode_oer on the prefixes that reach into the unknown additions (from octet %d on) and the extracted phase-4 loop disagree, first at prefix %s: C %s, model %s"
+                                                                    % (st, (st + bad[0]) if bad else "?", ",".join(got)[:300], ",".join(m1)[:300]),
+                                                                    "module": m["text"], "type": cc["tn"], "command_line": ml[i][:3000], "c_command": "prefixes %s oer %s" % (cc["tn"], h[:3000])},
+                              no_input=not any(x.startswith(("X", "O")) for x in got[:-1]))
 
 
 OPEN_TYPES = ["00", "0141", "05aabbccddee", "7f" + "11" * 127, "8180" + "22" * 128, "81ff" + "33" * 255, "820100" + "44" * 256, "820003aabbcc", "8400000002beef",
@@ -287,24 +265,21 @@ def skip_tie(run, model, m, rng):
         n = len(h) // 2
         scs = ["1*", "2*", ",".join(map(str, U.schedules(rng, n, 1)[0]))]
         cl += ["oskippfx " + h] + ["oskip %s %s" % (h, sc) for sc in scs]
-        ml += ["skipspfx 1 1 " + h] + ["skipfeed 1 %s %s" % (h, sc) for sc in scs] + ["skipspfx 0 1 " + h] + ["skipfeed 0 %s %s" % (h, sc) for sc in scs]
+        ml += ["skipspfx 1 1 " + h] + ["skipfeed 1 %s %s" % (h, sc) for sc in scs]
     co = run_mod(run, m, cl, "C05-oskip")
     rcm, mo, me = run_lines(model, ml, timeout=600)
     if rcm != 0 or len(mo) != len(ml):
         raise RuntimeError("model driver failed (skipfeed): %s %s" % (rcm, me))
     for i, h in enumerate(hs):
-        c4, m1, m0 = co[4 * i:4 * i + 4], mo[8 * i:8 * i + 4], mo[8 * i + 4:8 * i + 8]
+        c4, m1 = co[4 * i:4 * i + 4], mo[4 * i:4 * i + 4]
         run.case("oskip " + h)
         run.count("model_skipfeed", 4)
         if c4 == m1:
             continue
-        if c4 == m0:
-            run.known_finding(SKIP_FID, "oskip " + h)
-            continue
         # a window that answers RC_OK with a count beyond it is a failing input of the prefix clause in itself
-        run.violation("correspondence:ResumeX.skip_step", {"what": "oer_open_type_skip and the extracted step disagree on the open type %s (every prefix; 1*, 2*, a schedule): C %s, model %s (code before the repair: %s)"
-                                                           % (h[:80], " | ".join(c4)[:400], " | ".join(m1)[:400], " | ".join(m0)[:400]),
-                                                           "command_line": ml[8 * i][:3000], "c_command": cl[4 * i][:3000]}, no_input=not any("X" in x or "OVER" in x for x in c4))
+        run.violation("correspondence:ResumeX.skip_step", {"what": "oer_open_type_skip and the extracted step disagree on the open type %s (every prefix; 1*, 2*, a schedule): C %s, model %s"
+                                                           % (h[:80], " | ".join(c4)[:400], " | ".join(m1)[:400]),
+                                                           "command_line": ml[4 * i][:3000], "c_command": cl[4 * i][:3000]}, no_input=not any("X" in x or "OVER" in x for x in c4))
 
 
 def entref_tie(run, model, sm, scases, rng, quick):
